@@ -117,6 +117,35 @@ func init() {
 				check("ladder = edwards group", refx.Ladder(kk, up).Cmp(want) == 0)
 			}
 		}
+		// subgroup orders and the preimage construction used by C07's sparse-output alphabet
+		check("L prime", refx.L.ProbablyPrime(32) && refx.L.Cmp(ref.L) == 0)
+		check("L' prime", refx.TwistL.ProbablyPrime(32))
+		if ok, q := refx.PrimeOrderSubgroup(big.NewInt(9)); !ok || q.Cmp(refx.L) != 0 {
+			check("9 generates the order-L subgroup", false)
+		}
+		tw := refx.Ladder(big.NewInt(4), big.NewInt(2)) // [4](u=2) is in the order-L' subgroup of the twist
+		if ok, q := refx.PrimeOrderSubgroup(tw); !ok || q.Cmp(refx.TwistL) != 0 || refx.OnCurve(tw) {
+			check("[4](u=2) has order L' on the twist", false)
+		}
+		ok1, _ := refx.PrimeOrderSubgroup(big.NewInt(1))
+		okMixed, _ := refx.PrimeOrderSubgroup(ref.Base.Add(tor[4]).ToMontgomeryU())
+		check("mixed-order / low-order points are not in a prime-order subgroup", !ok1 && !okMixed)
+		// X25519(alice, Preimage(alice, T)) = T for T = 5*2^128 (curve) and 2*2^128 (twist);
+		// the two preimages were derived independently (seeded change C07/1 demo).
+		for _, v := range [][2]string{
+			{"5", "27faa5cb62970af969faa075e14e4989d0256f4484bc9d7509fbfb147bb5a87c"},
+			{"2", "2c98d4e61644bc79e4f84d718ad010c9cc9d0f355783b9c06a28355abf4b236b"},
+		} {
+			kk, _ := new(big.Int).SetString(v[0], 10)
+			T := new(big.Int).Lsh(kk, 128)
+			okT, q := refx.PrimeOrderSubgroup(T)
+			check("target in prime-order subgroup", okT)
+			if okT {
+				U := refx.Preimage(a, T, q)
+				check("preimage matches the independently derived point", hex.EncodeToString(U) == v[1])
+				check("X25519(k, preimage) = target", bytes.Equal(refx.X25519(a, U), refx.EncodeUCoordinate(T)))
+			}
+		}
 		check("2 is on the twist", !refx.OnCurve(big.NewInt(2)))
 		check("9 is on the curve", refx.OnCurve(big.NewInt(9)))
 		check("-1 is on the twist", !refx.OnCurve(new(big.Int).Sub(refx.P, big.NewInt(1))))
